@@ -104,9 +104,13 @@ class ServeManifest(RequestHandlerBase):
             logging.info('DRM requested for a stream without encrypted video')
             return flask.make_response(
                 'This stream does not have any encrypted video', 404)
-        dash = ManifestContext(
-            manifest=mft, options=options, stream=current_stream,
-            multi_period=None)
+        try:
+            dash = ManifestContext(
+                manifest=mft, options=options, stream=current_stream,
+                multi_period=None)
+        except ValueError as err:
+            logging.warning('Unable to create manifest: %s', err)
+            return flask.make_response(html.escape(str(err)), 404)
         context = cast(ManifestTemplateContext, self.create_context(
             title=current_stream.title, mpd=dash, options=options,
             mode=mode, stream=current_stream))
@@ -180,9 +184,13 @@ class ServeMultiPeriodManifest(RequestHandlerBase):
                 return flask.make_response(
                     f'Period {html.escape(period.pid)}: timing reference of its stream has not been configured',
                     404)
-        dash = ManifestContext(
-            manifest=current_manifest, options=options, stream=None,
-            multi_period=current_mps)
+        try:
+            dash = ManifestContext(
+                manifest=current_manifest, options=options, stream=None,
+                multi_period=current_mps)
+        except ValueError as err:
+            logging.warning('Unable to create manifest: %s', err)
+            return flask.make_response(html.escape(str(err)), 404)
         context = cast(ManifestTemplateContext, self.create_context(
             title=current_mps.title, mpd=dash, options=options,
             mode=mode))
@@ -299,9 +307,13 @@ class ServePatch(RequestHandlerBase):
                 publish, tz=UTC())
         except (ValueError, OverflowError, OSError):
             return flask.make_response('Invalid publish time', 404)
-        dash = ManifestContext(
-            manifest=mft, options=options, stream=current_stream,
-            multi_period=None)
+        try:
+            dash = ManifestContext(
+                manifest=mft, options=options, stream=current_stream,
+                multi_period=None)
+        except ValueError as err:
+            logging.warning('Unable to create manifest: %s', err)
+            return flask.make_response(html.escape(str(err)), 404)
         context = cast(PatchTemplateContext, self.create_context(
             title=current_stream.title, mpd=dash, options=options,
             stream=current_stream,
